@@ -1,7 +1,8 @@
 /-
 Model of `==`, `cmp` and `Hash` of the 26 NLRI variants and of the `Nlri`
-enum, as coded in `src/bgp/nlri/*.rs` (after the repair F4: the hand-written
-`PartialEq` of the eight generic ADD-PATH types compares path id *and* NLRI).
+enum, as coded in `src/bgp/nlri/*.rs` (after the repairs F4: the hand-written
+`PartialEq` of the eight generic ADD-PATH types compares path id *and* NLRI, and
+F31: `FlowSpecNlri::cmp` compares the `afi` too).
 Core Lean only.
 
 * derive(PartialEq, Ord, Hash) is field-wise / lexicographic in declaration
@@ -23,7 +24,9 @@ structure OrdImpl (α : Type) where
   eq : α → α → Bool
   cmp : α → α → Ordering
   hashKey : α → List Nat
-  /-- invariant of the values that exist (e.g. a `Prefix` is a valid prefix) -/
+  /-- representation invariant: which model values stand for a value of the Rust
+  type at all (a `Prefix` is a valid `inetnum::Prefix`, an EVPN route type is one of the
+  values of `EvpnRouteType`).  It excludes no value of the Rust types. -/
   wf : α → Bool
 
 /-- `<[u8] as Ord>::cmp` -/
@@ -74,13 +77,22 @@ def rtImpl : OrdImpl Rt where
   hashKey a := bytesKey a.raw
   wf _ := true
 
-/-- flowspec.rs:102-131: `==` looks at `afi` and `raw`, `cmp` at `raw` only;
-inside `IpvNFlowSpecNlri` the `afi` is always the family's -/
-def fsImpl (afi : Nat) : OrdImpl Fs where
+/-- derive(Ord) on `Afi` (typeenum!, afisafi.rs:161): the named variants `Ipv4` (1),
+`Ipv6` (2), `L2Vpn` (25) in declaration order, then `Unimplemented(u16)` by its
+payload.  `Fs.afi` is the u16 code of a *normalised* `Afi` (what `From<u16>`, the
+parsers and serde's `from = "u16"` produce); `Afi::Unimplemented(1 | 2 | 25)` exists
+only under the `arbitrary` feature and is not represented. -/
+def afiKey (c : Nat) : Nat := if c = 1 then 0 else if c = 2 then 1 else if c = 25 then 2 else 3 + c
+
+/-- flowspec.rs:102-132: `==` looks at `afi` and `raw`; `cmp` at `afi`, then `raw`
+(after the repair F31; before it `cmp` read `raw` only, so an `Ipv4FlowSpecNlri`
+holding `afi = Ipv6` – constructible through serde – compared `Equal` to, but was
+`!=`, the one holding `afi = Ipv4`).  No hypothesis on `afi`. -/
+def fsImpl : OrdImpl Fs where
   eq a b := (a.afi == b.afi) && (a.raw == b.raw)
-  cmp a b := cmpBytes a.raw b.raw
+  cmp a b := (compare (afiKey a.afi) (afiKey b.afi)).then (cmpBytes a.raw b.raw)
   hashKey a := a.afi :: bytesKey a.raw
-  wf a := a.afi == afi
+  wf _ := true
 
 /-- derive(PartialEq, Ord, Hash) on `VplsNlri` (vpls.rs:9) in field order -/
 def vplsImpl : OrdImpl Vpls where
@@ -93,14 +105,14 @@ def vplsImpl : OrdImpl Vpls where
 
 /-- derive(Ord) on `EvpnRouteType` (typeenum!): the five named variants in
 declaration order, then `Unimplemented(u8)` by its payload -/
-def rtypeKey (c : Nat) : Nat := if 1 ≤ c ∧ c ≤ 5 then c else 256 + c
+def rtypeKey (r : Nat) : Nat := if 1 ≤ r ∧ r ≤ 5 then r else if r < 256 then 256 + r else r
 
 /-- evpn.rs:74-104 -/
 def evpnImpl : OrdImpl Evpn where
   eq a b := (a.rtype == b.rtype) && (a.raw == b.raw)
   cmp a b := (compare (rtypeKey a.rtype) (rtypeKey b.rtype)).then (cmpBytes a.raw b.raw)
   hashKey a := a.rtype :: bytesKey a.raw
-  wf a := decide (a.rtype < 256)
+  wf a := rtypeValid a.rtype
 
 /-- does the family's ADD-PATH type derive its traits (non-generic struct,
 afisafi.rs:46-50) or use the hand-written generic impls (afisafi.rs:62-84)? -/
@@ -119,8 +131,8 @@ def famImpl : (f : Fam) → OrdImpl f.Val
   | .v4vpn => vpnImpl
   | .v6vpn => vpnImpl
   | .v4rt => rtImpl
-  | .v4fs => fsImpl 1
-  | .v6fs => fsImpl 2
+  | .v4fs => fsImpl
+  | .v6fs => fsImpl
   | .vpls => vplsImpl
   | .evpn => evpnImpl
 
